@@ -769,7 +769,7 @@ func (c *ctx) accCheck(prior []byte, set uint16, ptr uint8, stream string) {
 	region := g.Octet[4]
 	g.SetAMFSetID(set)
 	g.SetAMFPointer(ptr)
-	oct := append([]byte{}, g.Octet[:]...)
+	oct := hk.Exact(g.Octet[:])
 	c.emit(stream, fmt.Sprintf("CGutiSet %s %d %d", hk.CoqBytes(prior[:11]), set, ptr), fmt.Sprintf("GUTI5G set %x %d %d", prior[:11], set, ptr), okS(string(oct)), "gset"+hk.Hex(oct))
 	wantSet, wantPtr := set&0x3ff, ptr&0x3f
 	if g.GetAMFSetID() != wantSet || g.GetAMFPointer() != wantPtr || g.Octet[4] != region {
@@ -1140,9 +1140,9 @@ func (c *ctx) stdlib() {
 		c.emit(st, "CBE16 "+hk.CoqBytes(b), "BigEndian.Uint16 "+hk.Hex(b), catch(func() obsT { return okN(int64(binary.BigEndian.Uint16(b))) }), "")
 		c.emit(st, "CBE32 "+hk.CoqBytes(b), "BigEndian.Uint32 "+hk.Hex(b), catch(func() obsT { return okN(int64(binary.BigEndian.Uint32(b))) }), "")
 		v := uint32(rng.Next())
-		b2 := append([]byte{}, b...)
+		b2 := hk.Exact(b)
 		c.emit(st, fmt.Sprintf("CPut16 %s %d", hk.CoqBytes(b), uint16(v)), "BigEndian.PutUint16", catch(func() obsT { binary.BigEndian.PutUint16(b2, uint16(v)); return okS(string(b2)) }), "")
-		b3 := append([]byte{}, b...)
+		b3 := hk.Exact(b)
 		c.emit(st, fmt.Sprintf("CPut32 %s %d", hk.CoqBytes(b), v), "BigEndian.PutUint32", catch(func() obsT { binary.BigEndian.PutUint32(b3, v); return okS(string(b3)) }), "")
 	}
 	// nasType.GetBitMask as used by the accessors
